@@ -101,6 +101,8 @@ type pobj struct {
 	dict   func(num func(int) int) string // stream dict entries (without Length/Filter)
 	data   []byte
 	stale  []byte // stale stream data / nil
+	// staleBody, when set, is what a plain object says in revisions older than its final one
+	staleBody func(num func(int) int) string
 	final  int
 	nopack bool
 }
@@ -417,6 +419,9 @@ func RenderPDF(doc LDoc, lay Layout) Rendered {
 		}
 	}
 
+	// what a superseded page leaf points at: if a stale leaf is ever used, this text shows
+	kStaleContent := add(&pobj{stream: true, dict: func(num func(int) int) string { return "" }, data: []byte("BT /F1 12 Tf 72 720 Td (STALE-PAGE-LEAF) Tj ET ")})
+
 	// ---- page tree objects ---------------------------------------------------
 	var assign func(n *PNode)
 	assign = func(n *PNode) {
@@ -487,6 +492,15 @@ func RenderPDF(doc LDoc, lay Layout) Rendered {
 			}
 			return fmt.Sprintf("<< /Type /Pages%s /Kids [%s] /Count %d%s >>", par, strings.Join(kids, " "), countLeaves(n), attrs(n, num))
 		}
+		if n.Leaf {
+			o.staleBody = func(num func(int) int) string {
+				par := ""
+				if parent != nil {
+					par = fmt.Sprintf(" /Parent %d 0 R", num(parent.key))
+				}
+				return fmt.Sprintf("<< /Type /Page%s%s /Contents %d 0 R >>", par, attrs(n, num), num(kStaleContent))
+			}
+		}
 		for _, k := range n.Kids {
 			fill(k, n)
 		}
@@ -546,8 +560,10 @@ func RenderPDF(doc LDoc, lay Layout) Rendered {
 		for _, o := range todo {
 			staleNow := o.final > rev
 			if !o.stream {
-				body := o.body(num) // plain objects are rewritten unchanged in later revisions
-				_ = staleNow
+				body := o.body(num) // most plain objects are rewritten unchanged in later revisions
+				if staleNow && o.staleBody != nil {
+					body = o.staleBody(num) // a superseded page leaf differs from its final version
+				}
 				raw := RawObj{Ordinal: ordinal, Num: num(o.key), Body: body}
 				ordinal++
 				if lay.ObjHook != nil {
